@@ -506,16 +506,13 @@ theorem sim_mun {vty : Var → Ty} {o : IntrinsicOp} {u : UnaryOp} {x : VExpr} {
     (hf : mslOpForm o = .unary u)
     (hx : VSimM W M env ρ x x' tx) (htx : VIr.typeOf W.sig vty vvty x = some tx)
     (ht : VIr.typeOf W.sig vty vvty (.op o (.cons x .nil)) = some t)
-    (hok : match irOpSem o, tx with
-      | .un .lnot, _ => True
-      | .un _, .sc k => VOk.arithK k = true
-      | _, _ => True) :
+    (hok : ∀ m k, irOpSem o = .un m → m ≠ .lnot → tx = .sc k → VOk.arithK k = true) :
     VSimM W M env ρ (.op o (.cons x .nil)) (.un u x') t := by
   have hsem := op_unaryM hf
   simp only [VIr.typeOf, htx] at ht
   cases hm : irOpSem o with
   | un m =>
-    rw [hm] at ht hok
+    rw [hm] at ht
     have hlx : t = tx ∧ (m = .lnot → tx.scalar = .bool) := by
       cases m <;> simp at ht
       all_goals first
@@ -539,8 +536,7 @@ theorem sim_mun {vty : Var → Ty} {o : IntrinsicOp} {u : UnaryOp} {x : VExpr} {
             obtain ⟨y, rfl⟩ := shaped_sc (shape_sound hρ x _ σ σ1 v htx hv)
             simp only [lift1, hP]
             cases unop W.P .lnot y <;> rfl
-      · have hak : VOk.arithK k = true := by
-          cases m <;> simp at hl <;> simpa using hok
+      · have hak : VOk.arithK k = true := hok m k hm hl rfl
         have hpk : Msl.promote k = k := by rcases arithK_cases hak with rfl | rfl | rfl <;> rfl
         have hkl : k ≠ .lit := by rcases arithK_cases hak with rfl | rfl | rfl <;> simp
         constructor
@@ -727,5 +723,174 @@ theorem sim_mbin {vty : Var → Ty} {o : IntrinsicOp} {b : BinOp} {x y : VExpr} 
           | _ => simp
   | _ => rw [hm] at ht; simp at ht
 
---NEXT
+
+/-- `%` on floating-point vectors / scalars: `metal::fmod(a, b)` -/
+theorem sim_mfmod {vty : Var → Ty} {o : IntrinsicOp} {x y : VExpr} {x' y' : VAExpr} {tx ty t : VTy}
+    (hP : M.P = W.P)
+    (hm : irOpSem o = .bin .mod) (hfl : tx.scalar = .float)
+    (hx : VSimM W M env ρ x x' tx) (htx : VIr.typeOf W.sig vty vvty x = some tx)
+    (hy : VSimM W M env ρ y y' ty) (hty : VIr.typeOf W.sig vty vvty y = some ty)
+    (ht : VIr.typeOf W.sig vty vvty (.op o (.cons x (.cons y .nil))) = some t) :
+    VSimM W M env ρ (.op o (.cons x (.cons y .nil))) (.call Msl.fmodName (.cons x' (.cons y' .nil))) t := by
+  simp only [VIr.typeOf, htx, hty, hm] at ht
+  split at ht
+  · rename_i hc
+    obtain ⟨rfl, _⟩ := hc
+    simp [MBin.isCmp] at ht; subst ht
+    have hside : binSide .mod tx := by
+      cases tx with
+      | vec k n => trivial
+      | sc k => simp [VTy.scalar] at hfl; subst hfl; simp [binSide, Msl.isShift, VOk.arithK]
+    have hbt := binTy_self hside
+    constructor
+    · simp [VMsl.typeOf, VMsl.argTypes, hx.1, hy.1, VMsl.callTy, hfl, hbt]
+    · intro σ
+      simp only [VMsl.eval, VMsl.argTypes, hx.1, hy.1, VMsl.evalArgs, hx.2 σ, VIr.eval, hm]
+      cases VIr.eval W ρ x σ with
+      | none => rfl
+      | some r =>
+        obtain ⟨va, σ1⟩ := r
+        simp only [hy.2 σ1]
+        cases VIr.eval W ρ y σ1 with
+        | none => rfl
+        | some r2 =>
+          obtain ⟨vb, σ2⟩ := r2
+          simp only [VMsl.callVal, beq_self_eq_true, if_true, hfl, and_self, hbt, VMsl.operand, VMsl.convMV, hP]
+          cases lift2 (binop W.P .mod) va vb <;> rfl
+  · simp at ht
+
+theorem ternTy_self (t : VTy) : VMsl.ternTy t t = some t := by simp [VMsl.ternTy]
+
+theorem sim_mtern {vty : Var → Ty} {c f g : VExpr} {c' f' g' : VAExpr} {tc tf tg t : VTy}
+    (hc : VSimM W M env ρ c c' tc) (htc : VIr.typeOf W.sig vty vvty c = some tc)
+    (hf : VSimM W M env ρ f f' tf) (htf : VIr.typeOf W.sig vty vvty f = some tf)
+    (hg : VSimM W M env ρ g g' tg) (htg : VIr.typeOf W.sig vty vvty g = some tg)
+    (ht : VIr.typeOf W.sig vty vvty (.tern c f g) = some t) :
+    VSimM W M env ρ (.tern c f g) (.tern c' f' g') t := by
+  simp only [VIr.typeOf, htc, htf, htg] at ht
+  have hb : tc = .sc .bool ∧ tf = t ∧ tg = t := by
+    cases tc with
+    | vec k n => simp at ht
+    | sc k =>
+      cases k <;> simp at ht
+      obtain ⟨⟨h1, _⟩, h3⟩ := ht
+      subst h1; subst h3; simp
+  obtain ⟨rfl, rfl, rfl⟩ := hb
+  constructor
+  · simp [VMsl.typeOf, hc.1, hf.1, hg.1, ternTy_self]
+  · intro σ
+    simp only [VMsl.eval, hc.1, hf.1, hg.1, ternTy_self, convMVR_self, hc.2 σ, VIr.eval]
+    cases VIr.eval W ρ c σ with
+    | none => rfl
+    | some r =>
+      obtain ⟨v, σ1⟩ := r
+      cases v with
+      | vec vs => simp
+      | sc sv =>
+        cases sv with
+        | b bv => cases bv <;> simp [hf.2 σ1, hg.2 σ1]
+        | _ => simp
+
+
+/-! ### constructors -/
+
+def flat : List VVal → List Val
+  | [] => []
+  | v :: r => v.comps ++ flat r
+
+def shapedAll : List VTy → List VVal → Bool
+  | [], [] => true
+  | t :: ts, v :: vs => VOk.shaped t v && shapedAll ts vs
+  | _, _ => false
+
+/-- what the induction proves about a constructor's slots -/
+def SlotsSim (W : World) (M : Msl.MWorld) (env : VAst.VEnv) (ρ : VStore) (k : Ty) (slots : VSlots) (as : VAExprs) (total : Nat) : Prop :=
+  ∃ tys, VMsl.argTypes M.msig env as = some tys ∧ (∀ t ∈ tys, t.scalar = k ∧ VOk.tyOKM t = true) ∧
+    (tys.map VTy.count).sum = total ∧
+    ∀ σ, match VMsl.evalArgs M env ρ as σ with
+      | none => VIr.evalSlots W ρ slots σ = none
+      | some (vs, σ1) => VIr.evalSlots W ρ slots σ = some (flat vs, σ1) ∧ shapedAll tys vs = true
+
+theorem ctorComps_same {P : Prim} {k : Ty} : ∀ (tys : List VTy) (vs : List VVal),
+    (∀ t ∈ tys, t.scalar = k) → shapedAll tys vs = true → VMsl.ctorComps P k tys vs = some (flat vs)
+  | [], [], _, _ => rfl
+  | [], _ :: _, _, h => by simp [shapedAll] at h
+  | _ :: _, [], _, h => by simp [shapedAll] at h
+  | t :: ts, v :: vs, hk, h => by
+    simp only [shapedAll, Bool.and_eq_true] at h
+    have ih := ctorComps_same (P := P) ts vs (fun t' ht' => hk t' (List.mem_cons_of_mem _ ht')) h.2
+    simp [VMsl.ctorComps, hk t (List.mem_cons_self), ih, flat]
+
+theorem same_ty {a b : VTy} (ha : VOk.tyOKM a = true) (hb : VOk.tyOKM b = true) (hs : a.scalar = b.scalar) (hc : a.count = b.count) : a = b := by
+  cases a with
+  | sc k =>
+    cases b with
+    | sc k2 => simp [VTy.scalar] at hs; subst hs; rfl
+    | vec k2 n =>
+      simp [VTy.count] at hc
+      simp [VOk.tyOKM] at hb; omega
+  | vec k n =>
+    cases b with
+    | sc k2 =>
+      simp [VTy.count] at hc
+      simp [VOk.tyOKM] at ha; omega
+    | vec k2 n2 => simp [VTy.scalar] at hs; simp [VTy.count] at hc; subst hs; subst hc; rfl
+
+theorem castOK_self {t : VTy} : VMsl.castOK t t = true := by cases t <;> simp [VMsl.castOK]
+
+theorem count_pos {t : VTy} (h : VOk.tyOKM t = true) : 0 < t.count := by
+  cases t with
+  | sc k => simp [VTy.count]
+  | vec k n => simp [VOk.tyOKM] at h; simp [VTy.count]; omega
+
+theorem sim_mctor {ty : VTy} {slots : VSlots} {as : VAExprs} {n : String}
+    (hn : GenMslVec.vtypeName ty = .ok n) (hoy : VOk.tyOKM ty = true)
+    (hs : SlotsSim W M env ρ ty.scalar slots as ty.count) :
+    VMsl.typeOf M.msig env (.call n as) = some ty ∧
+      ∀ σ, VMsl.eval M env ρ (.call n as) σ = VIr.eval W ρ (.ctor ty slots) σ := by
+  obtain ⟨tys, hat, hk, hsum, hev⟩ := hs
+  have htn := vtypeName_vtyOfName hn hoy
+  have hnf := typeName_ne_fmod htn
+  have hcast : ∀ ta, tys = [ta] → ta = ty := by
+    intro ta h; subst h
+    have := hk ta (List.mem_cons_self)
+    exact same_ty this.2 hoy this.1 (by simpa using hsum)
+  constructor
+  · simp only [VMsl.typeOf, hat, VMsl.callTy, hnf, htn]
+    match tys, hsum, hcast with
+    | [ta], _, hc => have := hc ta rfl; subst this; simp [castOK_self]
+    | [], hsum, _ => simp at hsum; have := count_pos hoy; omega
+    | _ :: _ :: _, hsum, _ => simp only [hsum, if_true]; simp
+  · intro σ
+    have h := hev σ
+    simp only [VMsl.eval, hat, VIr.eval]
+    cases hargs : VMsl.evalArgs M env ρ as σ with
+    | none => simp only [hargs] at h; simp [h]
+    | some r =>
+      obtain ⟨vs, σ1⟩ := r
+      simp only [hargs] at h
+      obtain ⟨hir, hsh⟩ := h
+      simp only [hir, VMsl.callVal, hnf, htn]
+      match tys, vs, hsum, hcast, hsh, hk with
+      | [ta], [v], _, hc, hsh, _ =>
+        have := hc ta rfl; subst this
+        simp only [castOK_self, if_true, flat, List.append_nil]
+        simp only [shapedAll, Bool.and_true] at hsh
+        cases ta with
+        | sc k =>
+          obtain ⟨y, rfl⟩ := shaped_sc hsh
+          simp [VVal.comps, build]
+        | vec k m =>
+          obtain ⟨xs, rfl, hl⟩ := shaped_vec hsh
+          simp [VVal.comps, build, hl]
+      | [], [], hsum, _, _, _ => simp at hsum; have := count_pos hoy; omega
+      | t1 :: t2 :: ts, vs, hsum, _, hsh, hk =>
+        have hcc := ctorComps_same (P := M.P) (t1 :: t2 :: ts) vs (fun t ht => (hk t ht).1) hsh
+        simp only [hsum, if_true, hcc]
+        cases build ty (flat vs) <;> rfl
+      | [_], [], _, _, hsh, _ => simp [shapedAll] at hsh
+      | [_], _ :: _ :: _, _, _, hsh, _ => simp [shapedAll] at hsh
+      | [], _ :: _, _, _, hsh, _ => simp [shapedAll] at hsh
+
+
 end RsslVerif.Lemmas.GenMslVec
